@@ -264,8 +264,11 @@ func smallCharRecipe(r *gen.R, maxAlpha, maxLen, maxReq int) spg.CharRecipe {
 			}
 			rec.RequireSets = append(rec.RequireSets, s)
 		}
-		if r.Chance(1, 6) {
-			rec.RequireSets = append(rec.RequireSets, "") // empty custom set: ignored by the documentation
+		if r.Chance(1, 6) { // empty custom set (ignored by the documentation), at any position
+			at := r.Intn(len(rec.RequireSets) + 1)
+			rs := append([]string(nil), rec.RequireSets[:at]...)
+			rs = append(rs, "")
+			rec.RequireSets = append(rs, rec.RequireSets[at:]...)
 		}
 		if r.Chance(1, 3) {
 			rec.ExcludeChars = subsetOf(r, pool, 1, 3)
@@ -432,6 +435,8 @@ var wordPools = [][]string{
 	{"123", "4x", "7", "語", "漢字", "かな", "-", "_a"},
 	{"Polish", "March", "Turkey", "Reading", "ÉA"},
 	{"b", "a", "c", "d", "e"},
+	{"4-door", "Ice cream", "5-o'clock", "7 up", "A b", "Élan vital", "9_to-five"},
+	{"élan", "ősz", "ночь", "ωμέγα", "ñandú"},
 }
 
 // wlInput generates an input slice for NewWordList.
